@@ -132,13 +132,139 @@ impl Drop for RecWatcher {
 
 fn main() {
 	let args: Vec<String> = std::env::args().collect();
-	let rt = tokio::runtime::Builder::new_multi_thread().worker_threads(2).enable_all().build().unwrap();
 	let base = PathBuf::from(&args[3]);
 	std::fs::create_dir_all(&base).unwrap();
 	*ROOT.lock().unwrap() = Some(base.clone());
 	for case in read_cases(&args[2]) {
-		emit(&rt.block_on(run(case, &base)));
+		// one runtime per case: a handler that dead-locks its worker thread must not starve the following cases
+		let rt = tokio::runtime::Builder::new_multi_thread().worker_threads(4).enable_all().build().unwrap();
+		// watchdog: handlers that dead-lock may block every worker thread, and with them the timers this harness sleeps on
+		let (tx, rx) = std::sync::mpsc::channel();
+		let (c2, b2) = (case.clone(), base.clone());
+		rt.spawn(async move {
+			let _ = tx.send(run(c2, &b2).await);
+		});
+		match rx.recv_timeout(Duration::from_secs(10)) {
+			Ok(v) => emit(&v),
+			Err(_) => {
+				*watchexec::sources::fs::verif::FACTORY.lock().unwrap() = None;
+				emit(&json!({"id": case["id"], "hung": true, "alive": [], "calls": [], "errors": [], "actions": [], "events_sent": 0, "worker_finished": false}));
+			}
+		}
+		rt.shutdown_timeout(Duration::from_millis(100));
 	}
+	use std::io::Write;
+	let _ = std::io::stdout().flush();
+	std::process::exit(0);
+}
+
+/// Context of the cases run through a whole `Watchexec` instance: the handlers are the instance's own (`ChangeableFn`s called by the
+/// error hook loop and the action worker); scheduled changes are applied from within them, a handler replacement installs a fresh
+/// recording handler of the next generation.
+struct WxCtx {
+	config: Arc<Config>,
+	sh: Shared,
+	root: PathBuf,
+	errs: Arc<Mutex<Vec<String>>>,
+	actions: Arc<Mutex<Vec<String>>>,
+	nerr: std::sync::atomic::AtomicUsize,
+	nact: std::sync::atomic::AtomicUsize,
+	on_err: Vec<(usize, Value, usize)>,
+	on_act: Vec<(usize, Value, usize)>,
+}
+
+fn apply_change_wx(ctx: &Arc<WxCtx>, ch: &Value, gen: usize) {
+	if ch["error_handler"].as_bool().unwrap_or(false) {
+		install_error_handler(ctx, gen + 1);
+	} else if ch["handler"].as_bool().unwrap_or(false) {
+		install_action_handler(ctx, gen + 1);
+	} else {
+		apply_change(&ctx.config, ch, &ctx.root);
+	}
+}
+
+fn install_error_handler(ctx: &Arc<WxCtx>, gen: usize) {
+	let c = ctx.clone();
+	ctx.config.on_error(move |hook: watchexec::ErrorHook| {
+		use std::sync::atomic::Ordering::SeqCst;
+		c.errs.lock().unwrap().push(format!("g{gen}:{}", hook.error));
+		let n = c.nerr.fetch_add(1, SeqCst);
+		for (i, ch, k) in &c.on_err {
+			if *i == n {
+				c.sh.lock().unwrap().calls.push(format!("change({k})"));
+				apply_change_wx(&c, ch, gen);
+			}
+		}
+	});
+}
+
+fn install_action_handler(ctx: &Arc<WxCtx>, gen: usize) {
+	let c = ctx.clone();
+	ctx.config.on_action(move |action| {
+		use std::sync::atomic::Ordering::SeqCst;
+		c.actions.lock().unwrap().push(format!("g{gen}:{}", action.events.len()));
+		let n = c.nact.fetch_add(1, SeqCst);
+		for (i, ch, k) in &c.on_act {
+			if *i == n {
+				c.sh.lock().unwrap().calls.push(format!("change({k})"));
+				apply_change_wx(&c, ch, gen);
+			}
+		}
+		action
+	});
+}
+
+async fn run_wx(case: Value, root: &Path, sh: Shared) -> Value {
+	let wx = watchexec::Watchexec::default();
+	let config = wx.config.clone();
+	sh.lock().unwrap().config = Some(config.clone());
+	let sched = |key: &str| -> Vec<(usize, Value, usize)> {
+		case["changes"].as_array().unwrap().iter().enumerate().filter(|(_, c)| c[key].is_u64()).map(|(k, c)| (c[key].as_u64().unwrap() as usize, c.clone(), k)).collect()
+	};
+	let ctx = Arc::new(WxCtx {
+		config: config.clone(), sh: sh.clone(), root: root.to_path_buf(),
+		errs: Default::default(), actions: Default::default(), nerr: Default::default(), nact: Default::default(),
+		on_err: sched("on_error"), on_act: sched("on_action"),
+	});
+	install_error_handler(&ctx, 0);
+	install_action_handler(&ctx, 0);
+	let main = wx.main();
+	tokio::time::sleep(Duration::from_millis(20)).await;
+	let mut sent = 0usize;
+	for (k, ch) in case["changes"].as_array().unwrap().iter().enumerate() {
+		if ch["inside_call"].is_u64() || ch["on_error"].is_u64() || ch["on_action"].is_u64() {
+			continue;
+		}
+		if ch["event"].as_bool().unwrap_or(false) {
+			// an urgent event: its own batch, one invocation of the action handler
+			if wx.send_event(watchexec_events::Event::default(), watchexec_events::Priority::Urgent).await.is_ok() {
+				sent += 1;
+			}
+		} else {
+			sh.lock().unwrap().calls.push(format!("change({k})"));
+			apply_change_wx(&ctx, ch, 100);
+		}
+		let gap = ch["gap_ms"].as_u64().unwrap_or(25);
+		if gap > 0 {
+			tokio::time::sleep(Duration::from_millis(gap)).await;
+		}
+	}
+	tokio::time::sleep(Duration::from_millis(80)).await;
+	let finished = main.is_finished();
+	let (alive, calls) = {
+		let r = sh.lock().unwrap();
+		let alive: Vec<Value> = r.instances.iter().filter(|i| i.2).map(|i| {
+			let mut reg: Vec<String> = i.1.iter().map(|(p, rec)| format!("{}{}", p.file_name().unwrap().to_string_lossy(), if *rec { ":r" } else { ":n" })).collect();
+			reg.sort();
+			json!({"kind": i.0, "registered": reg})
+		}).collect();
+		(alive, r.calls.clone())
+	};
+	let errors = ctx.errs.lock().unwrap().clone();
+	let actions = ctx.actions.lock().unwrap().clone();
+	main.abort();
+	*watchexec::sources::fs::verif::FACTORY.lock().unwrap() = None;
+	json!({"id": case["id"], "alive": alive, "calls": calls, "errors": errors, "actions": actions, "events_sent": sent, "worker_finished": finished})
 }
 
 async fn run(case: Value, root: &Path) -> Value {
@@ -158,6 +284,9 @@ async fn run(case: Value, root: &Path) -> Value {
 		r.calls.push(format!("create({idx},{k})"));
 		Ok(Box::new(RecWatcher { sh: sh2.clone(), idx }) as Box<dyn notify::Watcher + Send>)
 	}));
+	if case["via"] == "wx" {
+		return run_wx(case, root, sh).await;
+	}
 	let config = Arc::new(Config::default());
 	sh.lock().unwrap().config = Some(config.clone());
 	let (er_s, mut er_r) = tokio::sync::mpsc::channel(64);
